@@ -34,3 +34,8 @@ EDITS = [
     {"id": "sorted-set-of-epochs", "expect": "silent", "file": L,
      "old": "        [(epoch,) for epoch in time_grid],", "new": "        [(epoch,) for epoch in sorted(set(time_grid))],"},
 ]
+
+# round 8 (hardening that is not)
+EDITS += [
+    {'id': 'r8-round-half-up-by-int', 'expect': 'fire', 'rule': 'C07.O1', 'file': 'spowtd/load.py', 'old': '        yield [int(epoch)] + row[1:]', 'new': '        yield [int(epoch + 0.5)] + row[1:]'},
+]
